@@ -1,0 +1,19 @@
+//go:build verif
+
+package text
+
+// Contract for truncate (C20), checked by /verif/bin/plushvc. Comment-only.
+// rlen(s) = number of characters (runes) of s; runeoff(s, k) = byte offset at which the k-th
+// character of s starts (so s[:runeoff(s,k)] is a prefix of s cut at a character boundary).
+
+//@ spec tsize(opts hctx.Map) int = ite(has(opts, "size") && is(opts["size"], "int"), unbox(opts["size"], "int"), 50)
+//@ spec ttrail(opts hctx.Map) string = ite(has(opts, "trail") && is(opts["trail"], "string"), unbox(opts["trail"], "string"), "...")
+
+//@ func Truncate
+//@ ensures short: rlen(s) <= tsize(opts) ==> result == s
+//@ ensures trailonly: rlen(s) > tsize(opts) && rlen(ttrail(opts)) >= tsize(opts) ==> result == ttrail(opts)
+//@ ensures cut: rlen(s) > tsize(opts) && rlen(ttrail(opts)) < tsize(opts) ==> result == s[:runeoff(s, tsize(opts) - rlen(ttrail(opts)))] + ttrail(opts)
+//@ ensures bound: rlen(result) <= max(tsize(opts), rlen(ttrail(opts)))
+//@ assigns nothing
+//@ loop 1: invariant 0 <= n && n <= keep && keep == size - len(runesTrail) && keep < rlen(s) && roff == runeoff(s, n) && size == tsize(opts) && trail == ttrail(opts) && len(runesTrail) == rlen(trail) && len(runesS) == rlen(s) && len(runesS) > size && len(runesTrail) < size
+//@ loop 1: decreases rlen(s) - n
